@@ -67,3 +67,9 @@ claim("C05",
   "For each cell of the style table and each shape: the decoded value must equal the value that was serialised, ValidateParameter and ValidateRequest must accept exactly when the reference schema evaluator accepts the value, an absent required parameter must be reported as missing (ErrInvalidRequired), an absent optional one accepted, and text that is no serialisation of the declared type rejected.",
   "Trusted: internal/styleser (RFC 6570 reading for label/explode=false), internal/refschema, the exclusion of delimiter characters and empty members from string values (ambiguous serialisations). Hook: openapi3filter/verif_export.go (build tag verif). Open finding: cookie arrays/objects with explode=true.",
   "DESIGN.md#c05")
+
+claim("C06",
+  "property-based testing with a reference media-type matcher, encoder/decoder round trips and the reference evaluator read as a request: the precedence table (declared key sets x Content-Type headers x target entry) is enumerated completely with the selected entry made observable through per-entry schemas; JSON, form-urlencoded, multipart and plain-text bodies of generated values are sampled with rapid",
+  "Selection must follow the documented precedence (exact string, without parameters, type/*, */*; undeclared rejected; empty header matches */* only); a missing or empty body is rejected exactly when the body is required; the public decoders must return the value that was encoded; ValidateRequestBody / ValidateRequest must accept exactly when the value satisfies the schema read as a request (readOnly forbidden and not required, writeOnly allowed, ExcludeReadOnlyValidations honoured).",
+  "Trusted: refMatch (15 lines), internal/styleser and the multipart/form encoders, internal/refschema in request mode. Wildcard matches onto content types without a registered decoder are not asserted. Members whose text is not a serialisation of their type are not yet generated.",
+  "DESIGN.md#c06")
